@@ -147,6 +147,9 @@ structure SNode where
   /-- the mapped calls this node forks over (outermost first) with their index sets
   (`CallGraphStage.Forks` + the statically known size of each) -/
   forks : List (String × List Idx) := []
+  /-- the run-time controls that disable the node (`CallGraphStage.Disable`): its own and those of
+  the pipelines around it -/
+  disable : List RExp := []
 deriving Inhabited
 
 /-! ### map calls over statically sized collections -/
@@ -233,7 +236,7 @@ def staticCallable (P : Program) (nm : List String → String) :
   | fuel+1, callee, path, ins =>
     match P.callables.lookup callee with
     | none => (⟨.lit .null, badTy⟩, [])
-    | some (.stage _ _) => (⟨.ref (nm path) ⟨callee, 0, 0⟩ [], ⟨callee, 0, 0⟩⟩, [⟨path, callee, ins, []⟩])
+    | some (.stage _ _) => (⟨.ref (nm path) ⟨callee, 0, 0⟩ [], ⟨callee, 0, 0⟩⟩, [⟨path, callee, ins, [], []⟩])
     | some (.pipeline _ outs calls ret) =>
       let r := staticCalls P.table P.insOf (staticCallable P nm fuel) path ins calls [] []
       (⟨.struct (outs.map fun p =>
@@ -243,6 +246,52 @@ def staticCallable (P : Program) (nm : List String → String) :
            | none => .lit .null)), ⟨callee, 0, 0⟩⟩,
        r.2)
 
+/-! ### the shapes of map calls that the static phase above covers -/
+
+/-- every split input of the map call has the statically known index set `ixs` -/
+def splitsStaticB (st : StructTable) (self sib : RBMap) (ins : List Param) (c : Call)
+    (ixs : Bool × List Idx) : Bool :=
+  ins.all fun p =>
+    match c.binds.find? (fun b => b.param == p.name) with
+    | some b =>
+      !b.split ||
+        staticIndices (filterR st (liftSplitTy (isMapLit (resolveRefs self sib b.exp)) p.ty)
+          (resolveRefs self sib b.exp)) == some ixs
+    | none => true
+
+/-- the map call's size is known after resolution, is not zero, and all its split inputs agree -/
+def mappedShapeOk (st : StructTable) (self sib : RBMap) (ins : List Param) (c : Call) : Bool :=
+  match callIndicesR st self sib ins c with
+  | some ixs => !ixs.2.isEmpty && splitsStaticB st self sib ins c ixs
+  | none => false
+
+/-- `mappedShapeOk` for every map call instance of the call graph (same traversal as `staticCalls`) -/
+def staticCallsOk (st : StructTable) (insOf : String → List Param)
+    (node : String → List String → RBMap → RB × List SNode)
+    (ok : String → List String → RBMap → Bool) (path : List String) (self : RBMap) :
+    List Call → RBMap → Bool
+  | [], _ => true
+  | c :: cs, sib =>
+    if c.mapped then
+      let cins := resolveBindsM st self sib (insOf c.callee) c
+      let r := node c.callee (path ++ [c.id]) cins
+      let ixs := (callIndicesR st self sib (insOf c.callee) c).getD (false, [])
+      mappedShapeOk st self sib (insOf c.callee) c && ok c.callee (path ++ [c.id]) cins &&
+        staticCallsOk st insOf node ok path self cs (sib ++ [(c.id, unrolledOutputs c ixs r.1.exp)])
+    else
+      let cins := resolveBinds st self sib (insOf c.callee) c
+      let r := node c.callee (path ++ [c.id]) cins
+      ok c.callee (path ++ [c.id]) cins && staticCallsOk st insOf node ok path self cs (sib ++ [(c.id, r.1)])
+
+def staticCallableOk (P : Program) (nm : List String → String) :
+    Nat → String → List String → RBMap → Bool
+  | 0, _, _, _ => true
+  | fuel+1, callee, path, ins =>
+    match P.callables.lookup callee with
+    | some (.pipeline _ _ calls _) =>
+      staticCallsOk P.table P.insOf (staticCallable P nm fuel) (staticCallableOk P nm fuel) path ins calls []
+    | _ => true
+
 /-- resolved inputs of the top-level call (`Bindings.resolve(nil, nil)`) -/
 def topInputs (P : Program) : RBMap :=
   resolveBinds P.table [] [] (P.insOf P.top.callee) P.top
@@ -250,6 +299,11 @@ def topInputs (P : Program) : RBMap :=
 /-- THE STATIC PHASE: resolved outputs of the top node, every stage node with its resolved inputs -/
 def staticProgram (P : Program) (nm : List String → String) : RB × List SNode :=
   staticCallable P nm P.fuel P.top.callee [P.top.id] (topInputs P)
+
+/-- every map call instance of the program has a statically known, non-zero size on which its split
+inputs agree (what `C01.static` checks before it compares: otherwise `merge` nodes stay) -/
+def staticProgramOk (P : Program) (nm : List String → String) : Bool :=
+  staticCallableOk P nm P.fuel P.top.callee [P.top.id] (topInputs P)
 
 /-! ## run-time phase -/
 
